@@ -2,6 +2,9 @@ package main
 
 import (
 	"encoding/json"
+	"fmt"
+	"runtime/debug"
+	"strings"
 
 	"vh/enum"
 )
@@ -15,8 +18,27 @@ func regEnum(name string, f func(enum.Opts) *enum.Out) {
 		if op.NShards == 0 {
 			op.NShards = 1
 		}
-		return f(op), nil
+		return guardEnum(name, f, op), nil
 	}
+}
+
+// guardEnum runs one shard; a panic raised inside repository code while an input of the
+// family is evaluated is a violation (the input crashed the code under test), reported in
+// place of the shard's result. A panic that starts in harness code stays a harness error.
+func guardEnum(name string, f func(enum.Opts) *enum.Out, op enum.Opts) (out *enum.Out) {
+	defer func() {
+		if e := recover(); e != nil {
+			st := string(debug.Stack())
+			origin, frames := panicOrigin(st)
+			if !strings.HasPrefix(origin, "massnet.org/mass-wallet/") {
+				panic(fmt.Sprintf("%v\n%s", e, st))
+			}
+			out = enum.NewOut()
+			out.Evaluations = 1
+			out.Add("(input being evaluated when shard "+fmt.Sprint(op.Shard)+" stopped)", fmt.Sprintf("the code under test panicked: %v | %s", e, frames), "panic")
+		}
+	}()
+	return f(op)
 }
 
 func init() {
